@@ -230,3 +230,21 @@ V("c07-reward-sign", "C07", "violation", "C07.R5", edits=[(RW, "        return s
 V("c07-normalise-by-global-max", "C07", "violation", "C07.R5", edits=[("tasking/rewards/reward_base.py", "                metric_matrix[..., met] /= metric_matrix[..., met].max()", "                metric_matrix[..., met] /= metric_matrix.max()")])
 V("c07-n-mask-inside-too", "C07", "pass", edits=[(DD, "        return where(visibility_matrix > 0.0, True, False)", "        return where(visibility_matrix > 0.0, True, False) & visibility_matrix")])
 V("c07-n-and-sides-swapped", "C07", "pass", edits=[(DB, "        return decision_matrix & visibility_matrix", "        return visibility_matrix & decision_matrix")])
+
+# ------------------------------------------------------------------------------------ C10
+EA = "agents/estimate_agent.py"
+AP = "parallel/agent_propagation.py"
+SBD = "scenario/scenario_builder.py"
+V("c10-sensor-rewinds-target", "C10", "violation", "C10.R1", edits=[(SB, "            tgt_eci_state = self._applyTimeBias(target_agent)\n", "            tgt_eci_state = self._applyTimeBias(target_agent)\n            target_agent.eci_state = tgt_eci_state\n")])
+V("c10-scenario-resets-agent-time", "C10", "violation", "C10.R1", edits=[(SC, "            for target_id, target in self.target_agents.items():\n                self._target_store[target_id] = ray.put(target)\n", "            for target_id, target in self.target_agents.items():\n                target.time = self.clock.time\n                self._target_store[target_id] = ray.put(target)\n")])
+V("c10-update-info-moves-sensor", "C10", "violation", "C10.R1", edits=[(SA, "        self.sensors.time_last_tasked = sensor_change[\"time_last_tasked\"]\n", "        self.sensors.time_last_tasked = sensor_change[\"time_last_tasked\"]\n        self._time = sensor_change[\"time_last_tasked\"]\n")])
+V("c10-shared-dynamics", "C10", "violation", "C10.R4", edits=[(SC, "            dynamics=filter_dynamics,\n            time_cfg=self.scenario_config.time,", "            dynamics=target_dynamics,\n            time_cfg=self.scenario_config.time,")])
+V("c10-estimate-config-not-copied", "C10", "violation", "C10.R5", edits=[(SC, "        est_prop_cfg = deepcopy(self.scenario_config.propagation)\n", "        est_prop_cfg = self.scenario_config.propagation\n")])
+V("c10-truth-dynamics-from-estimation-model", "C10", "violation", "C10.R5", edits=[(SBD, "            dynamics = dynamicsFactory(\n                target_cfg,\n                self.config.propagation,", "            dynamics = dynamicsFactory(\n                target_cfg,\n                self.config.estimation.sequential_filter,")])
+V("c10-join-after-predict", "C10", "violation", "C10.R6", edits=[(SC, "        self._agent_propagator.join()\n\n        if not self.scenario_config.propagation.truth_simulation_only:\n            self.logger.debug(\"Predict estimates...\")", "        if not self.scenario_config.propagation.truth_simulation_only:\n            self.logger.debug(\"Predict estimates...\")"), (SC, "        # Flush events from event stack\n", "        self._agent_propagator.join()\n        # Flush events from event stack\n")])
+V("c10-propagate-only-when-tasking", "C10", "violation", "C10.R6", edits=[(SC, "            if target_agent.realtime:\n                self._agent_propagator.enqueueJob(PropagateRegistration(target_agent))", "            if target_agent.realtime and self._tasking_engines:\n                self._agent_propagator.enqueueJob(PropagateRegistration(target_agent))")])
+V("c10-submission-from-other-state", "C10", "violation", "C10.R3", edits=[(AP, "            init_eci=self._registrant.eci_state,", "            init_eci=self._registrant.previous_state,")])
+V("c10-result-slots", "C10", "violation", "C10.R3", edits=[(AP, "        self._registrant.eci_state = results.final_eci", "        self._registrant.eci_state = results.prev_state")])
+V("c10-propagate-to-keeps-state", "C10", "violation", "C10.R7", edits=[(SC, "            for _ in range(int(steps)):\n                self.stepForward()\n", "            for _ in range(int(steps)):\n                self._steps_taken = getattr(self, \"_steps_taken\", 0) + 1\n                self.stepForward()\n")])
+V("c10-output-resets-previous-state", "C10", "violation", "C10.R1", edits=[("agents/target_agent.py", "        return TruthEphemeris.fromECIVector(\n            agent_id=self.simulation_id,", "        self._previous_state = self._truth_state\n        return TruthEphemeris.fromECIVector(\n            agent_id=self.simulation_id,")])
+V("c10-n-rename-dynamics-local", "C10", "pass", edits=[(SC, "        target_dynamics = dynamicsFactory(", "        truth_dynamics = dynamicsFactory("), (SC, "            dynamics=target_dynamics,\n", "            dynamics=truth_dynamics,\n")])
